@@ -70,6 +70,7 @@ type Actor struct {
 	// lab contracts (sim/lab.go): Store instances, the CREATE2 factory, a reserved prefunded creation
 	Labs       []common.Address
 	Factory    *common.Address
+	Converter  *common.Address
 	pendingLab *pendingDeploy
 	NoLab      bool // Traffic submits no lab-contract transactions
 
@@ -333,6 +334,12 @@ func (a *Actor) LabTraffic(t *rapid.T) {
 	n := rapid.SampledFrom([]int{0, 0, 1, 1, 2}).Draw(t, "nlab")
 	for i := 0; i < n; i++ {
 		kinds := []string{"labdeploy", "labprefund", "labfactory"}
+		if a.PrimeNumber() >= params.ControllerKickInBlock+1 {
+			kinds = append(kinds, "labconverter")
+			if a.Converter != nil {
+				kinds = append(kinds, "labconvert", "labconvert")
+			}
+		}
 		if a.pendingLab != nil {
 			kinds = append(kinds, "labcreate", "labcreate", "labcreate")
 		}
